@@ -6,6 +6,9 @@
 
 order: 0 wait first, 1 drain first, 2 concurrent, 3 wait_with_output, 4 / 5 = wait /
 wait_with_output while the Child still owns its ChildStdin (child = cat, n_in = 0).
+A second case shape, 5 integers [drv; dir; m; k; n_out], is ONE write call (dir 0) or
+ONE read call (dir 1) with a buffer of m * 2^32 + k bytes (request-length arithmetic of
+huge buffers: exactly 2^32, a multiple, 2^32 + k); a few per run, both drivers.
 Every scenario is emitted for both drivers (drv 0 = io_uring, 1 = polling).
 Payload sizes sit below, at and above the pipe capacity (65536); a few
 scenarios push >= 2 MiB through `cat` with a single large write call.  Chunk
@@ -91,6 +94,15 @@ def generate(seed, n):
         sc = scenario(rng, kind, thorough)
         for drv in (0, 1):
             cases.append([drv] + sc)
+    # huge buffers: one call with 2^32, 2 * 2^32, 2^32 + k bytes, both directions, both drivers
+    for _ in range(2 if not thorough else 8):
+        m, k = rng.choice([(1, 0), (2, 0), (1, rng.choice([1, 5, 100, 4096])), (2, rng.choice([3, 777]))])
+        n_out = rng.choice([1, 1000, 5000, 40000, CAP])
+        for drv in (0, 1):
+            cases.append([drv, 0, m, k, 0])
+            cases.append([drv, 1, m, k, n_out])
+    cases.append([0, 0, 3, 0, 0])                           # m out of range
+    cases.append([1, 1, 1, 0, 0])                           # read of nothing
     # a few malformed lines: both sides must reject them alike
     cases.append([0, 1, 1, 5, 0, 1, 1, 0, 0, 0, 0, 0])      # n_in without stdin
     cases.append([1, 10, 10, 0, 0, 0, 1, 0, 0, 0, 0, 0])    # rchunk 0
@@ -103,6 +115,12 @@ ORDERS = ["wait-first", "drain-first", "concurrent", "wait_with_output", "wait(s
 
 
 def describe(case):
+    if len(case) == 5:
+        drv, d, m, k, n_out = case
+        if drv > 1 or d > 1 or not 1 <= m <= 2:
+            return "malformed"
+        return "%s huge-buffer %s %s" % ("poll" if drv == 1 else "uring", "read" if d else "write",
+                                         "m*2^32" if k == 0 else "m*2^32+k")
     if len(case) != 12 or case[9] > 5:
         return "malformed"
     drv, n_out, n_err, n_in, use_stdin, rchunk, wchunk, ek, ea, order, reuse, delay = case
@@ -112,4 +130,6 @@ def describe(case):
 
 
 def nontrivial(case, out):
+    if len(case) == 5:
+        return len(out) == 6 and out[0] == 0 and out[1] > 0
     return len(out) == 12 and out[0] == 0 and (out[1] + out[5] > 0 or out[9] != 0 or out[10] != 0)
